@@ -108,7 +108,9 @@ experiments:
     reporting: {codespeed: {project: p, url: "http://localhost:1/"}}
 """
 
-WRONG = [None, [], {}, "str", 5, -1, 1.5, True, ["a", "b"], {"k": "v"}, "", "5!", "!", "0x10"]
+WRONG = [None, [], {}, "str", 5, -1, 1.5, True, ["a", "b"], {"k": "v"}, "", "5!", "!", "0x10",
+         # maps whose keys YAML reads as int / bool / null (mixed with strings), values with braces and format characters
+         {1: "a", "B": "b"}, {None: "x", "B": "y"}, {True: "a"}, {"{k}": "{v}"}, "a{b}c", "%(nokey)s", "100%", "{", "}"]
 
 
 def all_paths(node, prefix=()):
@@ -159,7 +161,11 @@ def mutate_doc(rng, doc):
 
 RAW_DOCS = {
     "empty": "", "null": "null\n", "list root": "- a\n- b\n", "scalar root": "hello\n", "int root": "5\n",
-    "bad yaml": "a: [1, 2\n", "tab": "a:\n\t- b\n", "only comment": "# nothing\n", "two documents": "a: 1\n---\nb: 2\n",
+    "bad yaml": "a: [1, 2\n", "bad yaml, flow map": "foo: {bar\n", "bad yaml, closing brace": "a: }\n",
+    "bad yaml, braces in the offending text": "a: {x}: {y}\n  b: {0}\n", "bad yaml, percent": "a: %(x)s\n b: [\n",
+    "env with a number as name": "executors: {E: {executable: x, env: {1: a, B: b}}}\nbenchmark_suites: {S: {gauge_adapter: Time, command: c, benchmarks: [B]}}\nexperiments: {X: {executions: [E], suites: [S]}}\n",
+    "env with null as name": "executors: {E: {executable: x}}\nbenchmark_suites: {S: {gauge_adapter: Time, command: c, env: {~: a, B: b}, benchmarks: [B]}}\nexperiments: {X: {executions: [E], suites: [S]}}\n",
+    "adapter of the wrong type in a suite with braces in its name": "executors: {E: {executable: x}}\nbenchmark_suites: {'S{x}': {gauge_adapter: 5, command: c, benchmarks: [B]}}\nexperiments: {X: {executions: [E], suites: ['S{x}']}}\n", "tab": "a:\n\t- b\n", "only comment": "# nothing\n", "two documents": "a: 1\n---\nb: 2\n",
     "anchors and merge": "base: &B {executable: x, path: /p}\nexecutors:\n  E1: {<<: *B}\n",
     "dot key anchors": ".defs: &B {executable: x}\nexecutors: {E1: *B}\nbenchmark_suites: {S: {gauge_adapter: Time, command: c, benchmarks: [b]}}\nexperiments: {X: {executions: [E1], suites: [S]}}\n",
     "merge into experiment": ".r: &R {invocations: 3}\nexecutors: {E1: {executable: x}}\nbenchmark_suites: {S: {gauge_adapter: Time, command: c, benchmarks: [b]}}\nexperiments: {X: {<<: *R, executions: [E1], suites: [S]}}\n",
@@ -257,7 +263,7 @@ def run(chk):
     docs = [("raw:" + k, v) for k, v in RAW_DOCS.items()]
     docs.append(("valid", VALID_DOC))
     # names that YAML reads as numbers, booleans or null - as experiment, executor, suite, benchmark and machine names
-    for odd in ["2024", "1.5", "yes", "~", "0x1F", "1e3", "on"]:
+    for odd in ["2024", "1.5", "yes", "~", "0x1F", "1e3", "on", "'S{x}'", "'{0}'", "'%(x)s'", "'a}b'"]:
         for where in ("experiment", "executor", "suite", "benchmark", "machine"):
             names = dict(experiment="X", executor="E", suite="S", benchmark="b", machine="m")
             names[where] = odd
@@ -293,10 +299,13 @@ def run(chk):
     os.chdir(d)
     try:
         for i, (label, text) in enumerate(docs):
-            path = os.path.join(d, "c%d.conf" % i)
+            # every fifth document lives in a file whose name contains braces (the name appears in the diagnostics)
+            path = os.path.join(d, ("c%d.conf" if i % 5 else "c{%d}{x}.conf") % i)
             with open(path, "w") as f:
                 f.write(text)
             argv = ["-E", "-D", path]
+            if i % 41 == 7:
+                argv = ["-E", "-D", path + ".{missing}"]          # a file that does not exist
             if label.startswith("valid-shared:") and label.endswith(":all"):
                 argv.append("all")
             elif label.startswith("odd-name:") and label.endswith(":nope"):
